@@ -51,6 +51,7 @@ CHECKS = {
 }
 
 TS = "TLA+ model checking (TLC on MossStore) + replay of TLC-generated behaviours (rounds, I/O failures, crash images, history walks, read-only opens) into the real store"
+TSB = " + trace validation of every footer swap against TraceStore.tla (direction B)"
 STORE_NOTE = ("Trusted: TLC + CommunityModules Json; the File wrapper handed to StoreOptions.OpenFile forwards to *os.File; the crash model is the property's "
               "(any subset of the un-synced records of a file lost, the last write torn at byte classes; at record, not page, granularity); content in MossStore is abstract (batch numbers), key-level semantics "
               "of persisted data is decided by the store-backed MossColl replays; expected values are computed by TLC.")
@@ -58,20 +59,20 @@ CHECKS.update({
  "C05": dict(text="TLC checks MossStore (every file operation one action, Crash anywhere, Recover = openStore/ScanFooter) for RecoverIsPrefix/AtLeastSynced/OpenNeverFails; TLC-chosen crash points and "
              "disk images (per file any subset of the un-synced records lost, the last write torn) are checked for legality against the recorded syncs, materialised from the writes the implementation really issued "
              "(every tear offset class per record kind), reopened with the real OpenStore and compared; images of the deviation NoSyncBeforeFooter are legal only on a tree that does not sync before the footer.",
-             technique=TS, ref="6/C05", engine="mossstore", note=STORE_NOTE),
+             technique=TS + TSB, ref="6/C05", engine="mossstore", note=STORE_NOTE),
  "C06": dict(text="TLC checks PublishedFooterReadable/CurrentFileExists with IOFail at every file operation; each abstract failing step is expanded into its concrete operations and error kinds "
              "(error, short write, stat error) on the recorded File; store content, a reopened copy of the directory, OnError/Persist errors and catch-up are compared.",
-             technique=TS, ref="6/C06", engine="mossstore", note=STORE_NOTE),
+             technique=TS + TSB, ref="6/C06", engine="mossstore", note=STORE_NOTE),
  "C07": dict(text="TLC checks CompactionPreservesContent/FullCompactionShape/OldFilesGoAway over every splice point (policy is a parameter of the spec); forced full compactions and appends are replayed, "
              "content before/after, footer shape (segments, deletion markers, duplicates) and the directory listing are compared; partial compactions at the splice points the store's own policy chooses are taken by "
              "store-backed MossColl replays (overwrites, deletions, a child collection, preloaded large segment, reopen) under small level parameters, sized values and CompactionPercentage 1.0; the evidence counts them.",
-             technique=TS, ref="6/C07", engine="mossstore", note=STORE_NOTE),
+             technique=TS + TSB, ref="6/C07", engine="mossstore", note=STORE_NOTE),
  "C12": dict(text="TLC checks HistoryDescends/HistoryReadable; behaviours with SnapshotPrevious walks to every depth, SnapshotRevert to any footer of the walk, reopen and further rounds are replayed and "
              "the content at every position compared (store, collection, reopened copy of the directory).",
-             technique=TS, ref="6/C12", engine="mossstore", note=STORE_NOTE),
+             technique=TS + TSB, ref="6/C12", engine="mossstore", note=STORE_NOTE),
  "C18": dict(text="TLC checks ReadOnlyFrame/ReadOnlyOpenFrame; directories left by rounds, failed compactions and crashes (plus junk files) are opened read-only and exercised; the directory hash, "
              "the recorded File operations and the os.Remove hook are checked after every step.",
-             technique=TS, ref="6/C18", engine="mossstore", note=STORE_NOTE),
+             technique=TS + TSB, ref="6/C18", engine="mossstore", note=STORE_NOTE),
 })
 
 CHECKS.update({
@@ -145,7 +146,7 @@ def main():
             {"name": "mossconc", "path": "bin/check_conc.py", "serves_properties": ["C03", "C16"],
              "kind_free_text": "TLC on specs/MossVis.tla, MossSync.tla, TraceVis.tla, TraceSync.tla, TraceHooks.tla + harness/cmd/conc (recorded free-running executions) + harness/cmd/syncscen (gated counterexample schedules)"},
             {"name": "mossstore", "path": "bin/check_store.py", "serves_properties": [p for p in ["C05","C06","C07","C12","C18"] if p in CHECKS],
-             "kind_free_text": "TLC on specs/MossStore.tla (MCStore.tla) + harness/cmd/storereplay (rounds forced through Store.Persist options, fault injection and crash-image materialisation through the recorded File)"},
+             "kind_free_text": "TLC on specs/MossStore.tla (MCStore.tla), TraceStore.tla + harness/cmd/storereplay (rounds forced through Store.Persist options, fault injection and crash-image materialisation through the recorded File)"},
         ],
         "checks": checks,
         "not_applicable": na,
